@@ -96,11 +96,17 @@ def gen_loop_script(rng) -> dict:
             "cost": cost, "bound": bound}
 
 
-def gen_history(rng, max_len: int) -> list:
+POOLS = ([1, 2], [1, 2], [1, 2, 3], [7], [1, 777], [777, 778, 1])      # 777/778: equal objects are not identical
+
+
+def gen_history(rng, max_len: int, pool=None) -> list:
+    """Settings values come from a SMALL pool, so that the same value is posted again (A,A), a value is reverted before
+    the task looks (A,B,A), the value in effect or the initial one is re-posted, …; now and then fresh values."""
     n = rng.randint(0, max_len)
     shape = rng.random()
     hist: list = []
     nxt = [1]
+    fresh_values = pool is None
 
     def rnd_op():
         k = rng.random()
@@ -117,8 +123,11 @@ def gen_history(rng, max_len: int) -> list:
         if k < 0.55:
             return "is_running"
         if k < 0.77:
-            v = nxt[0]
-            nxt[0] += 1
+            if fresh_values:
+                v = nxt[0]
+                nxt[0] += 1
+            else:
+                v = rng.choice(pool)
             return ["set", v]
         if k < 0.84:
             return "get"
@@ -230,6 +239,11 @@ def _val(x) -> str:
     if isinstance(x, bool) or not isinstance(x, int):
         return "?" + type(x).__name__
     return str(x)
+
+
+def _fresh(v):
+    """an object equal to `v` but (for values outside CPython's small-int cache) not identical to any other copy"""
+    return int(str(v)) if isinstance(v, int) and not isinstance(v, bool) else v
 
 
 def _ticks(t) -> str:
@@ -360,6 +374,8 @@ def _classes():
             self._settings_fifo = TapDeque(old, maxlen=old.maxlen)
             if type(self.sig_settings_updated) is QMI_RegisteredSignal:
                 self.sig_settings_updated.__class__ = TapSignal
+            if rec.script.get("settings0") is not None:
+                self.settings = _fresh(rec.script["settings0"])     # as a task class does in its __init__
             rec.task = self
             if rec.script["init"] == "fail_post":
                 raise InitBoom("scripted init failure (after QMI_Task.__init__)")
@@ -474,6 +490,8 @@ def _classes():
             if type(self.sig_status_updated) is QMI_RegisteredSignal:
                 self.sig_status_updated.__class__ = TapStatusSignal
             self._calls = collections.Counter()
+            if sc.get("settings0") is not None:
+                self.settings = _fresh(sc["settings0"])
             rec.task = self
 
         # -- observation points of run() ------------------------------------------------------------
@@ -823,7 +841,7 @@ def _do_op(p, op):
     if op == "exit":
         return type(p).__exit__(p, None, None, None)
     if isinstance(op, (list, tuple)) and op[0] == "set":
-        return p.set_settings(op[1])
+        return p.set_settings(_fresh(op[1]))
     raise ValueError(f"bad op {op!r}")
 
 
@@ -906,6 +924,8 @@ def run_case(case: dict) -> Obs:
 
 def lines_of(obs: Obs, script: Optional[dict] = None) -> list:
     lines = ["init"]
+    if script is not None and script.get("settings0") is not None and script.get("init") != "fail_pre":
+        lines = ["init %d" % script["settings0"]]
     if script is not None and script.get("kind") == "loop":
         lines.append("linit %s %s" % (_ticks(script["period"]), script["policy"]))
     for e in obs.log:
@@ -1062,27 +1082,50 @@ def oracle(case: dict, obs: Obs) -> list:
             bad.append(("set-settings-raised", f"op {i}: {result[i]}"))
     upd_calls = [i for i, m in marks if m[0] == "upd_call"]
     upd_rets = [(i, m[1], m[2]) for i, m in marks if m[0] == "upd_ret"]
-    consumed = 0      # values are 1,2,3… in posting order; 0 = nothing consumed yet
+    # Posts are numbered 1..n in issue order (runner operations are serial); values may repeat, so everything is
+    # decided on ordinals and time windows, never on the values being distinct.  `cons` = the ordinals that may be the
+    # post the task consumed last (0 = none yet): a post racing with an update may or may not have landed before the pop.
+    v0 = script.get("settings0")
+    pval = {0: v0}
+    for k, (i, v) in enumerate(posts, 1):
+        pval[k] = v
+    pord = [(k, i) for k, (i, v) in enumerate(posts, 1)]
+    cons = {0}
     for (c, (rpos, rv, seen)) in zip(upd_calls, upd_rets):
-        surely = [v for i, v in posts if i in pos_ret and pos_ret[i] < c and v > consumed]
-        maybe = [v for i, v in posts if i in pos_call and pos_call[i] < rpos and v > consumed]
-        if rv is True:
-            if not maybe:
-                bad.append(("update-true-without-post", f"update_settings() returned True, saw {seen!r}, nothing posted since"))
-            elif seen not in maybe:
-                bad.append(("update-wrong-value", f"saw {seen!r}, candidates {maybe}"))
-            elif surely and seen < max(surely):
-                bad.append(("update-not-newest", f"saw {seen!r}, but {max(surely)} was posted before the update began"))
-            if isinstance(seen, int) and not isinstance(seen, bool):
-                consumed = max(consumed, seen)
-        elif rv is False:
-            if surely:
-                bad.append(("update-false-although-posted", f"values {surely} were posted since the previous update"))
-            want = consumed if consumed else None
-            if seen != want:
-                bad.append(("settings-changed-without-update", f"holds {seen!r}, expected {want!r}"))
-        else:
+        if rv is not True and rv is not False:
             bad.append(("update-not-bool", repr(rv)))
+            break
+        nxt_cons = set()
+        why = None
+        for k0 in sorted(cons):
+            surely = [k for k, i in pord if k > k0 and i in pos_ret and pos_ret[i] < c]
+            maybe = [k for k, i in pord if k > k0 and i in pos_call and pos_call[i] < rpos]
+            if rv:
+                if not maybe:
+                    why = why or ("update-true-without-post",
+                                  f"update_settings() returned True, saw {seen!r}, nothing posted since the previous update")
+                    continue
+                lo = max(surely) if surely else 0
+                fit = [k for k in maybe if k >= lo and pval[k] == seen]
+                if fit:
+                    nxt_cons.update(fit)
+                elif any(pval[k] == seen for k in maybe):
+                    why = ("update-not-newest", f"saw {seen!r} (post #{[k for k in maybe if pval[k] == seen]}), but post "
+                                                f"#{lo} = {pval[lo]!r} was made before the update began")
+                else:
+                    why = why or ("update-wrong-value", f"saw {seen!r}, candidates {[pval[k] for k in maybe]}")
+            else:
+                if surely:
+                    why = why or ("update-false-although-posted",
+                                  f"posts #{surely} = {[pval[k] for k in surely]} were made since the previous update")
+                elif seen != pval[k0]:
+                    why = why or ("settings-changed-without-update", f"holds {seen!r}, expected {pval[k0]!r}")
+                else:
+                    nxt_cons.add(k0)
+        if not nxt_cons:
+            bad.append(why or ("update-inconsistent", f"rv={rv} seen={seen!r}"))
+            break
+        cons = nxt_cons
     # publication of adopted settings: exactly one per successful update, carrying the adopted value, none otherwise
     pubs = [(i, m[1]) for i, m in marks if m[0] == "pub"]
     used = set()
@@ -1114,26 +1157,32 @@ def oracle(case: dict, obs: Obs) -> list:
             if r[1] not in allowed:
                 bad.append(("get-status-not-last-written", f"op {i}: {r[1]!r}, allowed {allowed}"))
     # get_pending_settings / get_settings (runner-side view)
-    last_posted = None
+    updates = list(zip(upd_calls, upd_rets))
+    last_k = 0
     for i, op in enumerate(ops):
         k = kind(op)
         if k == "set":
-            last_posted = op[1]
+            last_k += 1
         elif k == "pend" and i in result:
             r = result[i]
             if r[0] != "ok":
                 bad.append(("get-pending-raised", f"op {i}: {r}"))
                 continue
-            took_before_call = [s for (rpos, rv, s) in upd_rets if rv is True and rpos < pos_call[i]]
-            took_before_ret = [s for (c, (rpos, rv, s)) in zip(upd_calls, upd_rets) if rv is True and c < pos_ret[i]]
+            lastv = pval[last_k] if last_k else None
+            ipost = pord[last_k - 1][1] if last_k else None
+            # updates that may / must have taken the newest post before this call
+            may_take = [u for u in updates if u[1][1] is True and u[1][2] == lastv and u[0] < pos_ret[i]
+                        and ipost is not None and u[1][0] > pos_call[ipost]]
+            must_take = [u for u in updates if u[1][1] is True and ipost is not None and ipost in pos_ret
+                         and u[0] > pos_ret[ipost] and u[1][0] < pos_call[i]]
             # an update that started but whose return mark is missing (task aborted) may also have taken it
             open_upd = len(upd_calls) > len(upd_rets) and upd_calls[-1] < pos_ret[i]
             if r[1] is None:
-                if last_posted is not None and last_posted not in took_before_ret and not open_upd:
-                    bad.append(("pending-lost", f"op {i}: posted {last_posted}, not consumed, get_pending_settings() = None"))
-            elif r[1] != last_posted:
-                bad.append(("pending-not-newest", f"op {i}: {r[1]!r}, last posted {last_posted!r}"))
-            elif last_posted in took_before_call:
+                if last_k and not may_take and not open_upd:
+                    bad.append(("pending-lost", f"op {i}: post #{last_k} = {lastv!r} not consumed, get_pending_settings() = None"))
+            elif not last_k or r[1] != lastv:
+                bad.append(("pending-not-newest", f"op {i}: {r[1]!r}, last posted {lastv!r}"))
+            elif must_take:
                 bad.append(("pending-after-consumed", f"op {i}: {r[1]!r} was already taken by the task"))
         elif k == "get" and i in result:
             r = result[i]
@@ -1141,8 +1190,8 @@ def oracle(case: dict, obs: Obs) -> list:
                 bad.append(("get-settings-raised", f"op {i}: {r}"))
                 continue
             taken = [s for (c, (rpos, rv, s)) in zip(upd_calls, upd_rets) if rv is True and c < pos_ret[i]]
-            if r[1] is not None and r[1] not in taken:
-                bad.append(("get-settings-unknown-value", f"op {i}: {r[1]!r}, task took {taken}"))
+            if r[1] not in taken and r[1] != v0:
+                bad.append(("get-settings-unknown-value", f"op {i}: {r[1]!r}, task took {taken}, initial {v0!r}"))
     if script.get("kind") == "loop":
         bad += _loop_oracle(script, marks, run_exits, obs)
     # --- deadlock -----------------------------------------------------------------------------------------------
@@ -1305,7 +1354,10 @@ class C10(Prop):
     # -- generation -------------------------------------------------------------------------------
     def _gen_case(self, rng, max_len):
         script = gen_loop_script(rng) if rng.random() < 0.18 else gen_script(rng)
-        history = gen_history(rng, max_len)
+        pool = None if rng.random() < 0.2 else rng.choice(POOLS)
+        if pool is not None and rng.random() < 0.5:
+            script["settings0"] = rng.choice(pool)          # the task starts with settings of its own, from the same pool
+        history = gen_history(rng, max_len, pool)
         pol = rng.random()
         case = {"script": script, "history": history, "seed": rng.randrange(1 << 30),
                 "policy": "weighted", "cp": None, "trace": rng.random() < 0.25}
@@ -1422,6 +1474,21 @@ class C10(Prop):
              [["set", 1], "status", "start", "status", ["set", 2], "status", "exit", "status", "exit"]),
             ({"init": "ok", "body": [["until_stop", 3]], "end": ["ret"]}, ["enter", "enter", "exit", "join", "join", "stop", "start"]),
         ]
+        seq = {"init": "ok", "body": [["upd"], ["wait_stop"], ["upd"], ["upd"]], "end": ["ret"]}
+        seq0 = dict(seq, settings0=1)
+        upd4 = {"init": "ok", "body": [["upd"], ["upd"], ["upd"], ["upd"]], "end": ["ret"]}
+        for script, hist in [
+            (seq, [["set", 1], "start", "get", ["set", 2], ["set", 1], "pend", "stop", "join", "get", "pend"]),     # A | B A
+            (seq, [["set", 1], "start", "get", ["set", 1], "pend", "stop", "join", "get", "pend"]),                 # A | A
+            (seq0, ["start", "get", ["set", 1], "pend", "stop", "join", "get"]),                                    # initial again
+            (seq0, [["set", 2], ["set", 1], "pend", "start", "join"]),                                              # B, initial
+            (seq0, ["start", ["set", 2], ["set", 1], ["set", 2], "pend", "stop", "join", "get"]),                   # B A B
+            (seq, [["set", 777], "start", "get", ["set", 778], ["set", 777], "pend", "stop", "join", "get"]),       # equal, not identical
+            (upd4, [["set", 1], ["set", 1], "pend", "start", "join", "get", ["set", 1], "pend"]),                   # A A, then A after the end
+            (dict(upd4, settings0=2), [["set", 2], "pend", "enter", ["set", 2], "pend", "exit", "get"]),
+        ]:
+            fixed.append((script, hist))
+
         def loop(period, policy, hooks=None, status=(), cost=(), bound=3):
             return {"kind": "loop", "init": "ok", "body": [], "end": ["loop"], "period": period, "policy": policy,
                     "hooks": hooks or {}, "status": list(status), "cost": list(cost), "bound": bound}
@@ -1446,13 +1513,26 @@ class C10(Prop):
                 cases.append({"script": script, "history": hist, "seed": ctx.rng.randrange(1 << 30),
                               "policy": "weighted" if s % 2 == 0 else "pct", "cp": None, "trace": s % 3 == 0})
         # a post racing with update_settings(), line-level yield points: change-point sweep + random thread weights
+        # values repeat: revert before the task looks (A,B,A), the value in effect / the initial value posted again, A,A
         race = {"init": "ok", "body": [["upd"], ["upd"], ["upd"]], "end": ["ret"]}
-        rh = ["start", ["set", 1], ["set", 2], ["set", 3], "pend", "join", "get"]
+        race0 = dict(race, settings0=1)
+        races = [
+            (race, ["start", ["set", 1], ["set", 2], ["set", 3], "pend", "join", "get"]),
+            (race, ["start", ["set", 1], ["set", 2], ["set", 1], "pend", "join", "get"]),
+            (race, [["set", 1], "start", ["set", 1], ["set", 2], ["set", 2], "pend", ["set", 1], "join", "pend"]),
+            (race0, ["start", ["set", 1], "pend", ["set", 2], ["set", 1], "pend", "join", "get"]),
+            (race0, [["set", 2], ["set", 1], "pend", "start", ["set", 777], ["set", 777], ["set", 1], "join", "get"]),
+        ]
+        k = 0
         for cp in range(60, 300, ctx.scale(8, 2)):
-            cases.append({"script": race, "history": rh, "seed": cp, "policy": "pct", "cp": cp, "trace": True})
+            sc, rh = races[k % len(races)]
+            k += 1
+            cases.append({"script": sc, "history": rh, "seed": cp, "policy": "pct", "cp": cp, "trace": True})
         # (one change point rarely puts the post between `if fifo` and `fifo.pop()`; random thread weights do: ~4 % of runs)
         for _ in range(ctx.scale(250, 2000)):
-            cases.append({"script": race, "history": rh, "seed": ctx.rng.randrange(1 << 30), "policy": "weighted",
+            sc, rh = races[k % len(races)]
+            k += 1
+            cases.append({"script": sc, "history": rh, "seed": ctx.rng.randrange(1 << 30), "policy": "weighted",
                           "cp": None, "trace": True})
         self._evaluate(cases + random_cases, res, ctx)
         return res
@@ -1493,10 +1573,11 @@ class C10(Prop):
                 for hist in itertools.product(alphabet, repeat=n):
                     v = 0
                     h = []
+                    pattern = [[1, 2, 1, 2], [1, 1, 2, 2], [2, 1, 1, 2], [1, 2, 3, 4]][scripts.index(script) % 4]
                     for o in hist:
                         if o == "SET":
                             v += 1
-                            h.append(["set", v])
+                            h.append(["set", pattern[(v - 1) % 4]])
                         else:
                             h.append(o)
                     for cp in (None, 60, 90, 120, 150):
